@@ -251,8 +251,8 @@ pub fn batch(out: &str, tier: &str, seed: u64) -> Value {
             nontrivial.insert(h);
         }
     };
-    // every stream of up to 3 frames under every fixed chunk size
-    for s in streams_upto(3) {
+    // every stream of up to 3 (thorough: 4) frames under every fixed chunk size
+    for s in streams_upto(if thorough { 4 } else { 3 }) {
         for c in &chunks {
             run(&mut b, &s, None, c);
         }
@@ -275,7 +275,7 @@ pub fn batch(out: &str, tier: &str, seed: u64) -> Value {
     // seeded random streams of 3 frames, random chunking per read, random cut
     let mut rng = Rng(seed ^ 0x6672616d);
     let opts = frame_options();
-    let nrand = if thorough { 3000 } else { 250 };
+    let nrand = if thorough { 20000 } else { 250 };
     for _ in 0..nrand {
         let n = 1 + rng.below(3);
         let s: Vec<Frame> = (0..n).map(|_| opts[rng.below(opts.len())].clone()).collect();
